@@ -80,6 +80,16 @@ func TestC03WellFormed(t *testing.T) {
 				m   gen.ResModel
 			)
 
+			// The document may be marshaled at any point of its life and
+			// receive further resources afterwards.
+			if rapid.IntRange(0, 6).Draw(t, "marshalNow") == 0 {
+				calls = append(calls, "(marshal)")
+
+				if p := oracle.Try(func() { _, _ = jsonapi.MarshalDocument(c.Doc, c.URL) }); p != nil {
+					t.Fatalf("C03 violated: MarshalDocument %s\ncase: %s\ncalls: %v", p, c, calls)
+				}
+			}
+
 			mode := rapid.IntRange(0, 4).Draw(t, "argmode")
 
 			switch {
